@@ -58,6 +58,20 @@ def events(seed=0):
             except Exception as e:  # judged by the spec as a wrong value
                 rc = "!" + type(e).__name__
             ev.append(["comp", alpha.name, letter, comp, rc])
+    for alpha in Alphabet:
+        # which alphabets are nucleotide alphabets (the ones that can be complemented) is a table too
+        try:
+            isnt = bool(alpha.is_nucleotide_alphabet())
+        except BaseException as e:  # noqa: B902
+            isnt = "!" + type(e).__name__
+        try:
+            Sequence("A", alpha).reverse_complement()
+            rc = "v"
+        except BaseException as e:  # noqa: B902
+            from bcverif import encode as E
+
+            rc = E.exc_name(e)
+        ev.append(["isnt", alpha.name, isnt, rc])
     for f in CDSFrame:
         for n in range(-30, 31):
             ev.append(["shift", f.value, n, f.shift(n).value])
